@@ -37,7 +37,9 @@ pub fn id_text(cls: &str, rng: &mut StdRng, uniq: u64) -> Option<String> {
 				}
 			}
 		},
-		"bad" => pick(rng, &["-1", "1.0", "1e2", "18446744073709551616", "true", "false", "{}", "[1]", "{\"a\":1}", "-0", "1.5"]).into(),
+		// (1e400: a number by the JSON grammar that no f64 holds - serde_json reports it as a *syntax* error when it is decoded,
+		// but skips over it fine when the member is ignored)
+		"bad" => pick(rng, &["-1", "1.0", "1e2", "18446744073709551616", "true", "false", "{}", "[1]", "{\"a\":1}", "-0", "1.5", "1e400", "-1E999"]).into(),
 		o => panic!("id class {o}"),
 	})
 }
@@ -55,7 +57,8 @@ pub fn jsonrpc_text(cls: &str, rng: &mut StdRng) -> Option<String> {
 pub fn method_text(cls: &str, rng: &mut StdRng) -> Option<String> {
 	Some(match cls {
 		"absent" => return None,
-		"nonStr" => pick(rng, &["1", "null", "[\"echo\"]", "{\"a\":1}", "true"]).into(),
+		// (the last two are strings by the JSON grammar - an escape naming a lone surrogate - that decode to no Rust string)
+		"nonStr" => pick(rng, &["1", "null", "[\"echo\"]", "{\"a\":1}", "true", "\"\\ud800\"", "\"echo\\udfff\""]).into(),
 		"unknown" => pick(rng, &["\"nope\"", "\"\"", "\"Echo\"", "\"echo \"", "\"rpc.echo\"", "\"\\u0000\""]).into(),
 		"sync" => "\"echo\"".into(),
 		"syncEsc" => pick(rng, &["\"ech\\u006f\"", "\"\\u0065cho\"", "\"\\u0065\\u0063\\u0068\\u006f\""]).into(),
@@ -155,7 +158,8 @@ pub fn concretise_object(c: &Value, rng: &mut StdRng, uniq: u64, lead_ws: usize)
 	bytes.extend_from_slice(text.as_bytes());
 	Concrete {
 		bytes,
-		id: idt.map(|t| serde_json::from_str(&t).expect("id text is JSON")),
+		// (an id outside the domain is never compared: a placeholder stands in where serde_json::Value cannot hold it)
+		id: idt.map(|t| serde_json::from_str(&t).unwrap_or_else(|_| serde_json::json!({"unrepresentable": t}))),
 		params: pt.map(|t| serde_json::from_str(&t).expect("params text is JSON")),
 	}
 }
